@@ -278,7 +278,7 @@ bool handle_ok( const World& w, const std::string& op, const std::vector<std::st
         return w.dyn.count( k ) != 0;
     if ( op == "notenum" || op == "noteget" )
         return w.note_sec.count( k ) != 0 || w.note_seg.count( k ) != 0;
-    if ( op == "noteadd" )
+    if ( op == "noteadd" || op == "noteaddself" )
         return w.note_sec.count( k ) != 0;
     if ( op == "modnum" || op == "modget" || op == "modfind" || op == "modadd" )
         return w.mod.count( k ) != 0;
@@ -495,7 +495,7 @@ bool exec_one( std::map<uint64_t, World>& worlds, uint64_t& cur, const Tokens& t
             // positions of arguments that must name an existing section
             static const std::map<std::string, std::vector<int>> secargs = {
                 { "secset", { 1 } }, { "dset", { 1 } }, { "dapp", { 1 } }, { "dins", { 1 } },
-                { "stradd", { 1 } }, { "strget", { 1 } },
+                { "stradd", { 1 } }, { "strget", { 1 } }, { "straddself", { 1 } }, { "dappself", { 1 } },
                 { "symadd", { 1 } }, { "symadds", { 1, 2 } }, { "symget", { 1 } }, { "symname", { 1 } },
                 { "symval", { 1 } }, { "symnum", { 1 } }, { "reladd", { 1 } }, { "reladdi", { 1 } },
                 { "relget", { 1 } }, { "relgetf", { 1 } }, { "relset", { 1 } }, { "relswap", { 1 } },
@@ -604,6 +604,29 @@ bool exec_one( std::map<uint64_t, World>& worlds, uint64_t& cur, const Tokens& t
             std::string             str = unhex( t[2] );
             Elf_Word                r   = a.add_string( str );
             fprintf( out, "n %d %u %u\n", T_STRADD, i, (unsigned)r );
+        }
+        else if ( op == "straddself" ) {
+            // add_string( get_string( idx ) ): the argument points into the section's own buffer
+            unsigned                i = (unsigned)num( t[1] );
+            string_section_accessor a( w.el->sections[i] );
+            const char*             p = a.get_string( (Elf_Word)num( t[2] ) );
+            if ( p == nullptr )
+                put_n( out, 111, { i } );
+            else {
+                Elf_Word r = a.add_string( p );
+                fprintf( out, "n %d %u %u\n", T_STRADD, i, (unsigned)r );
+            }
+        }
+        else if ( op == "dappself" ) {
+            // append_data( get_data() + off, len )
+            unsigned    i   = (unsigned)num( t[1] );
+            section*    s   = w.el->sections[i];
+            uint64_t    off = num( t[2] ), len = num( t[3] );
+            const char* p   = s->get_data();
+            if ( p == nullptr || off + len < off || off + len > s->get_size() )
+                put_n( out, 111, { i } );
+            else
+                s->append_data( p + off, len );
         }
         else if ( op == "strget" ) {
             unsigned                i = (unsigned)num( t[1] );
@@ -945,6 +968,18 @@ bool exec_one( std::map<uint64_t, World>& worlds, uint64_t& cur, const Tokens& t
             std::string nm = unhex( t[3] ), d = unhex( t[4] );
             w.note_sec.at( num( t[1] ) )
                 ->add_note( (Elf_Word)num( t[2] ), nm, d.empty() ? nullptr : d.data(), (Elf_Word)d.size() );
+        }
+        else if ( op == "noteaddself" ) {
+            // add_note with the descriptor pointer and size get_note( idx ) returned (it points into the section)
+            uint64_t    k = num( t[1] ), idx = num( t[4] );
+            Elf_Word    type = 0, descsz = 0;
+            std::string name, nm = unhex( t[3] );
+            char*       desc = nullptr;
+            bool        r    = w.note_sec.at( k )->get_note( (Elf_Word)idx, type, name, desc, descsz );
+            if ( r && desc != nullptr )
+                w.note_sec.at( k )->add_note( (Elf_Word)num( t[2] ), nm, desc, descsz );
+            else
+                put_n( out, 111, { k } );
         }
         // ---------------------------------------------------------- arrays
         else if ( op == "arradd" || op == "arrget" || op == "arrnum" ) {
